@@ -314,6 +314,10 @@ func main() {
 		os.Exit(runReplay(os.Args[2]))
 	case "child":
 		childMain()
+	case "explore-flatten":
+		seed, _ := strconv.ParseUint(os.Args[2], 10, 64)
+		n, _ := strconv.Atoi(os.Args[3])
+		exploreFlatten(seed, n)
 	case "racerun":
 		seed, _ := strconv.ParseUint(os.Args[2], 10, 64)
 		docs, _ := strconv.Atoi(os.Args[3])
@@ -338,3 +342,37 @@ func isFlagSet(fs *flag.FlagSet, name string) bool {
 var startTime = time.Now()
 
 func bytesReader(b []byte) *bytes.Reader { return bytes.NewReader(b) }
+
+// exploreFlatten: development aid — runs the flatten child over generated bundles and prints what the Go-side clauses find.
+func exploreFlatten(seed uint64, n int) {
+	var cases []*Case
+	var ins []any
+	for i := 0; i < n; i++ {
+		for k, o := range optionSets {
+			g := NewGen(seed, 1<<32|uint64(i))
+			in := flattenCase(g, o, false, 3, 2, true)
+			cases = append(cases, &Case{ID: i*10 + k, Op: "flatten", In: in})
+			ins = append(ins, in)
+		}
+	}
+	outs := flattenBatch(20 * time.Second)(ins)
+	hist := map[string]int{}
+	shown := map[string]bool{}
+	for i, c := range cases {
+		c.Impl = outs[i]
+		fs := flattenFindings(c)
+		if len(fs) == 0 {
+			hist["ok"]++
+		}
+		for _, f := range fs {
+			hist[f.Signature]++
+			if !shown[f.Signature] {
+				shown[f.Signature] = true
+				fmt.Printf("--- %s\n    %s\n    bundle: %s\n", f.Signature, truncate(f.Detail, 400), truncate(string(mustJSON(get(c.In, "bundle"))), 1500))
+			}
+		}
+	}
+	for _, k := range sortedKeys(hist) {
+		fmt.Printf("%6d  %s\n", hist[k], k)
+	}
+}
